@@ -11,7 +11,7 @@ def queries(tier):
     qs = []
     cells = []
     if tier == 'quick':
-        cells = [(2, 0, 0, 1, 3), (2, 2, 0, 1, 4), (2, 3, 0, 1, 4), (2, 2, 1, 1, 4), (2, 4, 1, 2, 4), (3, 2, 0, 1, 3)]
+        cells = [(2, 0, 0, 1, 3), (2, 2, 0, 1, 4), (2, 3, 0, 1, 4), (2, 2, 1, 2, 3), (2, 2, 1, 1, 3), (3, 2, 0, 1, 3)]
     else:
         for T in (2, 3):
             for R in range(0, 5):
